@@ -287,7 +287,9 @@ func runRecord(path string, seed int64, ntraces, steps, na, ns int, sum *tl.Summ
 			case "Commit":
 				cw := sts[ti].World()
 				extra = tl.M{"world": cw}
-				committed = append(committed, cw)
+				if len(problems) == 0 {
+					committed = append(committed, cw)
+				}
 			case "Persist":
 				committed = []sk.World{a.World}
 			}
@@ -297,6 +299,9 @@ func runRecord(path string, seed int64, ntraces, steps, na, ns int, sum *tl.Summ
 			emit(a, len(problems) == 0, extra)
 			sum.Count(a.Op)
 			shape += a.Op[:2]
+			if len(problems) > 0 {
+				break // the trace is rejected at this event; what follows a divergence means nothing
+			}
 			if t == 0 && i < 3 {
 				sum.Sample(tl.M{"op": a.Op, "t": a.T, "a": a.A, "v": a.V, "config": c.String()})
 			}
